@@ -42,13 +42,13 @@ Theorem C04_values : forall ds g c rows,
 Proof. exact td_values. Qed.
 Print Assumptions C04_values.
 
-(* model and checker agree on the join-free fragment {BGP, UNION, GRAPH,
+(* model and checker agree on the join-free fragment {BGP, UNION, GRAPH ?g,
    projection}, for SELECT, ASK and CONSTRUCT, every dataset *)
 Theorem C04_main_partial : forall c, in_frag0 c = true -> spec_ok c (model_obs c) = true.
 Proof. exact main_frag0. Qed.
 Print Assumptions C04_main_partial.
 
-Theorem C04_fragment_untriggered_partial : forall p, frag0 p = true -> forall inex, scan inex [] p = 0%N.
+Theorem C04_fragment_untriggered_partial : forall p, frag0 p = true -> forall names inex, scan names inex [] p = 0%N.
 Proof. exact scan_frag0. Qed.
 Print Assumptions C04_fragment_untriggered_partial.
 
